@@ -15,6 +15,8 @@ IMPORTS = "Require Import V.model.RecordStore V.model.StoreStartup."
 
 
 def model_term(c, o):
+    if c.get("kind") == "node":
+        return None
     if c.get("kind") == "startup":
         if o is None or "panic" in o or "error" in o:
             return "false"
@@ -25,6 +27,8 @@ def model_term(c, o):
 
 
 def show(c, o):
+    if c.get("kind") == "node":
+        return "true"
     if c.get("kind") == "startup":
         return "startup %s %s (mkDisk %s (repeat (EmptyString, []) %d))" % (
             cstr(c["cur"]), "SAfterTruncate" if c.get("kill") else "SDone", copt(c.get("before"), cstr), c["files"])
@@ -32,6 +36,8 @@ def show(c, o):
 
 
 def nontrivial(c, o):
+    if c.get("kind") == "node":
+        return base.nontrivial(c, o)
     if c.get("kind") == "startup":
         return ("startup", c.get("before"), c["cur"], c.get("kill", False), c["files"] > 0)
     return base.nontrivial(c, o)
@@ -40,7 +46,7 @@ THEOREMS = ["shipped_build_encrypts_records", "restart_safe", "restart_durable",
             "restart_removed_stay_removed", "completed_delete_is_on_disk", "restart_safe_unencrypted_refuted",
             "version_file_written_only_on_mismatch", "same_version_start_inert", "same_version_starts_inert",
             "restart_durable_incl_startup", "restart_safe_incl_startup", "version_change_wipes",
-            "interrupted_version_change_converges", "rewrite_always_refuted"]
+            "interrupted_version_change_converges", "rewrite_always_refuted", "store_seed_is_function_of_identity"]
 RULE = ("histories of puts / overwrites / removes / evictions with the background tasks stopped at an arbitrary "
         "point (any number of single-task steps), followed by a crash that tears the pending write of 0-3 files at "
         "byte prefixes 0,1,2,3 (header boundary), 15-20 (tag boundary), ciphertext length -1/0/+1 and beyond "
@@ -142,6 +148,10 @@ def oracle(c, o):
         return [("panic", "the store panicked: %s" % o["panic"])]
     if c.get("kind") == "header":
         return []
+    if c.get("kind") == "node":
+        # the REAL start-up path: NetworkBuilder::build_node (version-file check, seed derived from the identity,
+        # store open) over the same root directory with the same keypair
+        return base.node_oracle(c, o, want_restart=True)
     if c.get("kind") == "startup":
         # a start-up under the version recorded in the version file must never wipe the store nor touch the file
         if c.get("before") == c["cur"]:
@@ -273,6 +283,8 @@ def gen(ctx):
         cc = mk_case(rng, keys, vals, ops, 16384, rng.choice([1, 25]), "size-limit")
         cc["cfg"]["max_value_bytes"] = mvb
         cases.append(cc)
+    # restarts through the real build_node with the same keypair and root directory (oracle only)
+    cases += base.gen_node_cases(rng, 20 if quick else 300, restarts=2)
     # start-up attempts killed at their first write (a real child process under `ulimit -f 0`) between the crash
     # and the start that completes; and a second ordinary restart afterwards
     for i in range(30 if quick else 400):
